@@ -30,7 +30,7 @@ def b01 (b : Bool) : String := if b then "1" else "0"
 def stateStr (s : St) : String :=
   let p := match s.msgPtr with | .null => "N" | .live => "L" | .dangling => "X"
   let i := match s.intr with | .self => "S" | .obj => "O" | .dangling => "X"
-  s!"[s{s.stop} h{s.handler} d{s.data} p{p} z{s.msgSize} i{i} I{b01 s.dispInt} T{b01 s.dispTerm}]"
+  s!"[s{s.stop},h{s.handler},d{s.data},p{p},z{s.msgSize},i{i},I{b01 s.dispInt},T{b01 s.dispTerm}]"
 
 def sigToken (g : Sig) (obs : List Obs) (s : St) : String :=
   let brk := obs.filterMap (fun o => match o with
